@@ -45,7 +45,7 @@ STR_VALUES = ["a", "b", "ab", "c", 'q"x', "it's", "both'\"", "back\\slash", "\t"
               "'''", "\\", "0", "1", "x y", "\r", "\\x41", "\U0001f600"]
 BYTES_VALUES = [b"\x00\xff", b'a"b', b"it's", b"\\", b"AB", b"\n", b"\x80", b"both'\"", b"a"]
 REGEX_TEXTS = ['r"[a-c]+"', "r'x\\d'", 'r"a\\"b"', "r'a\\'b'", 'r"a\\\'b\\"c"', 'r"[^\\"]"', 'r"\\\\"', 'rb"\\x00+"', 'rb"[\\x80-\\xff]"', 'r"\u00e9+"',
-               'r"a|b"', 'r"(ab)*c"', "r'''a'b\"c'''", 'rb"a\'b"', "rb'a\\'b\"c'", 'r"a\\.b"', 'r"\\d{2,3}"', "r'[\\']x'"]
+               'r"a|b"', 'r"(ab)*c"', "r'''a'b\"c'''", 'rb"a\'b"', "rb'a\\'b\"c'", 'r"a\\.b"', 'r"\\d{2,3}"', "r'[\\']x'", 'r"\\\\\'\\""', 'rb"\\\\\'\\""', "r'''a\\\\'b\"'''"]
 
 
 def py_lit(rng, v):
@@ -271,15 +271,26 @@ def user_names(text):
 
 
 def regex_equal_on_samples(rng, p, q):
+    """two patterns compared on ALL strings up to length 4 (3 for larger alphabets) over the characters that occur in either pattern,
+    plus random strings over a fixed alphabet"""
+    import itertools
     if type(p) is not type(q):
         return False
     isb = isinstance(p, bytes)
-    alpha = "abcx01 \"'\\.\u00e9\n" if not isb else "abcx01 \"'\\.\x00\x80\xff\n"
-    for _ in range(400):
-        s = "".join(rng.choice(alpha) for _ in range(rng.randint(0, 4)))
-        s = s.encode("latin-1") if isb else s
+    ptxt = p.decode("latin-1") if isb else p
+    qtxt = q.decode("latin-1") if isb else q
+    own = sorted(set(ptxt + qtxt + "a"))[:12]
+    maxlen = 4 if len(own) <= 8 else 3
+    cands = ["".join(t) for n in range(maxlen + 1) for t in itertools.product(own, repeat=n)]
+    alpha = "abcx0127 \"'\\.\u00e9\n" if not isb else "abcx0127 \"'\\.\x00\x80\xff\n"
+    cands += ["".join(rng.choice(alpha) for _ in range(rng.randint(0, 4))) for _ in range(400)]
+    for s in cands:
         try:
-            if bool(pyre.fullmatch(p, s)) != bool(pyre.fullmatch(q, s)):
+            s2 = s.encode("latin-1") if isb else s
+        except UnicodeEncodeError:
+            continue
+        try:
+            if bool(pyre.fullmatch(p, s2)) != bool(pyre.fullmatch(q, s2)):
                 return False
         except pyre.error:
             return False
